@@ -253,7 +253,7 @@ pub fn build_big(c: &BigCase) -> Scenario {
             steps.push(Step { edits: vec![], plan: plain.clone() });
         }
     }
-    Scenario { cfg, slots, init, steps }
+    Scenario { cfg, slots, init, steps, motif: 0 }
 }
 
 #[derive(Clone, Debug, Serialize, Deserialize, Default)]
